@@ -81,7 +81,7 @@ Ident == {"main", "a", "b_2", "c", "hello", "true", "null", "x", "sync", "bgr", 
           "image", "data", "sub", "more", "frames", "base_topic", "host", "flipx", "fmtgray", "rotcw", "maxsize",
           "minsize", "box", "lin", "get", "put", "post", "delete", "GET", "PUT", "one", "two", "endpoint", "mytopic",
           "scale", "vf", "crf", "t2", "localhost", "text", "t", "b", "e", "p", "pa", "pw", "llo", "he",
-          "flipy", "rotccw", "GET", "POST"}
+          "flipy", "rotccw", "GET", "POST", "topic2_frames", "DELETE", "other", "rest", "fill", "frames"}
 
 (* ====================================== utils.py:133 split_commas_maybe ======================================== *)
 (* ([s.strip() for s in v.split(',')] if v.strip() else [])  - for a str; anything else is returned as it is *)
@@ -335,7 +335,7 @@ OkVideoOut(os) == ~(\E i \in 1..Len(os) : os[i].k = <<"params">>) \/ Names(os) \
 AddrsImageIn == {<<"file:///path/to/images">>, <<"s3://bucket/images">>, <<"file:///pa", "!", "th/to">>}
 AtomsImageIn == {T("loop"), F("loop"), V("loop", <<"3">>), T("recursive"), F("recursive"), V("pattern", <<"*.jpg">>),
                  V("region", <<"us-west-2">>), V("maxfps", <<"1.0">>)}             \* image_in.py:145-160
-AddrsImageOut == {<<"file:///path/to/images_%Y%m%d_%d.png">>, <<"file:///other/pa", "!", "th">>}
+AddrsImageOut == {<<"file:///path/to/images_%Y%m%d_%d.png">>, <<"file:///other/pa", "!", "th_%d.png">>}
 AtomsImageOut == {T("bgr"), F("bgr"), V("format", <<"png">>), V("format", <<"jpg">>), V("quality", <<"95">>),
                   V("compression", <<"6">>)}                                      \* image_out.py:198-209
 OkAny(os) == TRUE
@@ -346,7 +346,7 @@ Fill(a1, a3, at2, at3, t3) == <<X(a1, <<>>, <<Mp("archive", "archive", "short")>
 FillVideoIn  == Fill(<<"file://b.mp4">>, <<"rtsp://user:pa", "!", "ss@host:8554/stream">>, F("bgr"), V("loop", <<"3">>), "frames")
 FillVideoOut == Fill(<<"file://b.mkv">>, <<"rtsp://user:pa", "!", "ss@host:8554/path">>, T("fps"), V("g", <<"30">>), "archive")
 FillImageIn  == Fill(<<"file:///imgs">>, <<"file:///pa", "!", "th/to">>, T("recursive"), V("pattern", <<"*.jpg">>), "frames")
-FillImageOut == Fill(<<"file:///o/a_%d.jpg">>, <<"file:///other/pa", "!", "th">>, F("bgr"), V("quality", <<"95">>), "archive")
+FillImageOut == Fill(<<"file:///o/a_%d.jpg">>, <<"file:///other/pa", "!", "th_%d.png">>, F("bgr"), V("quality", <<"95">>), "archive")
 PoolSeq(fill, full) == fill \o SetToSeq(full \ {fill[i] : i \in 1..Len(fill)})
 PoolVideoIn  == PoolSeq(FillVideoIn,  EntryPool(AddrsVideoIn,  AtomsVideoIn,  OkVideoIn))
 PoolVideoOut == PoolSeq(FillVideoOut, EntryPool(AddrsVideoOut, AtomsVideoOut, OkVideoOut))
@@ -407,9 +407,11 @@ KeysVideoIn == KeysOf(PoolVideoIn)
 KeysImageIn == KeysOf(PoolImageIn)
 TopicKey(cls, i) == IF cls = "VideoIn" THEN KeysVideoIn[i] ELSE KeysImageIn[i]
 ValidCfg(cls, idx) == cls \in InClasses => \A a, b \in 1..Len(idx) : a # b => TopicKey(cls, idx[a]) # TopicKey(cls, idx[b])
-InjSeqs(S, k) == {s \in [1..k -> S] : \A a, b \in 1..k : a # b => s[a] # s[b]}
+InjSeqs(S, k) == {s \in [1..k -> S] : \A a, b \in 1..k : a # b => s[a] # s[b]}       \* fillers in every order
+IncSeqs(S, k) == {s \in [1..k -> S] : \A a, b \in 1..k : a < b => s[a] < s[b]}       \* fillers in increasing order
+FillSeqs(S, k) == IF WsLevel >= 2 THEN InjSeqs(S, k) ELSE IncSeqs(S, k)
 Expand(cls, i) ==
-  {<<i>>} \cup {idx \in UNION {{InsertAt(f, p, i) : p \in 1..n, f \in InjSeqs(1..NFill(cls), n - 1)} : n \in 2..MaxN(cls)} :
+  {<<i>>} \cup {idx \in UNION {{InsertAt(f, p, i) : p \in 1..n, f \in FillSeqs(1..NFill(cls), n - 1)} : n \in 2..MaxN(cls)} :
                   ValidCfg(cls, idx)}
 WsIdx == IF WsLevel >= 2 THEN 1..Len(WsSeq) ELSE 1..3
 (* (no set of all configuration cases is ever built: a UNION of thousands of sets is quadratic in TLC; the vectors
@@ -499,7 +501,7 @@ ValidMq(m) == /\ ~(m.src = <<>> /\ m.path = <<>>)                       \* the e
 ValidMqtt(c) == /\ \A i \in 1..Len(c.items) : ValidMq(c.items[i])
                 /\ Cardinality({i \in 1..Len(c.items) : DefaultDst(c.items[i]) = <<>>}) <= 1     \* mqtt_out.py:316
                 /\ Cardinality({DefaultDst(c.items[i]) : i \in 1..Len(c.items)}) = Len(c.items)  \* mqtt_out.py:318
-ExpectedMqtt(c) == [h |-> [c.h EXCEPT !.slash = FALSE, !.base = c.h.base \o (IF c.h.slash THEN <<"/">> ELSE <<>>),
+ExpectedMqtt(c) == [h |-> [c.h EXCEPT !.slash = FALSE, !.base = IF c.h.base = <<>> THEN <<>> ELSE c.h.base \o (IF c.h.slash THEN <<"/">> ELSE <<>>),   \* "base/" keeps its slash
                                       !.opts = SetToSeq({c.h.opts[i] : i \in 1..Len(c.h.opts)})],
                     items |-> [i \in 1..Len(c.items) |-> NormMq(c.items[i])]]
 (* form A: everything in `outputs`; forms B, C: broker fields + `mappings` as a comma text / a list of texts *)
@@ -512,8 +514,7 @@ NormMqttC(c, w) == [h |-> ExpectedMqtt(c).h,
 
 (* ---- cases ---- *)
 HostPorts == {<<<<>>, <<>>>>, <<<<"0.0.0.0">>, <<"8000">>>>, <<<<"*">>, <<>>>>, <<<<>>, <<"6000">>>>, <<<<"192.168.1.13">>, <<"6000">>>>}
-WebvisCases == {[c |-> "Webvis", h |-> Hd(hp[1], hp[2], <<>>, sl, <<>>), items |-> <<>>, w |-> j] :
-                  hp \in HostPorts, sl \in BOOLEAN, j \in WsIdx}
+WebvisCases == {[c |-> "Webvis", h |-> Hd(hp[1], hp[2], <<>>, FALSE, <<>>), items |-> <<>>, w |-> j] : hp \in HostPorts, j \in WsIdx}
 RestBases  == {<<>>, <<"endpoint">>, <<"a/b">>}
 EpPool     == {It(me, <<>>, pa, tp, <<>>) : me \in {<<>>, <<"get">>, <<"put", "post">>, <<"PUT", "delete", "get">>},
                                             pa \in {<<>>, <<"one">>, <<"two/{var}">>},
@@ -521,10 +522,13 @@ EpPool     == {It(me, <<>>, pa, tp, <<>>) : me \in {<<>>, <<"get">>, <<"put", "p
 EpFill     == <<It(<<"delete">>, <<>>, <<"fill/{id}">>, <<"rest/zub">>, <<>>), It(<<>>, <<>>, <<"other">>, <<>>, <<>>)>>
 EpSeqs     == {<<>>} \cup {<<e>> : e \in EpPool} \cup {<<e, EpFill[1]>> : e \in EpPool} \cup {<<EpFill[2], e>> : e \in EpPool}
               \cup {<<EpFill[1], e, EpFill[2]>> : e \in EpPool}
+(* a trailing '/' is only generated after a base path/topic ("[/base/path]", "[/base/topic/]"); '/' alone is not in the
+   documented grammar *)
+SlashOk(k) == k.h.slash => k.h.base # <<>>
 RestCases  == {k \in {[c |-> "REST", h |-> Hd(hp[1], hp[2], ba, sl, <<>>), items |-> es, w |-> j] :
                         hp \in HostPorts, ba \in RestBases, sl \in BOOLEAN, es \in {<<>>, <<EpFill[1]>>, <<EpFill[2], EpFill[1]>>}, j \in WsIdx}
                       \cup {[c |-> "REST", h |-> Hd(hp[1], hp[2], <<"endpoint">>, FALSE, <<>>), items |-> es, w |-> j] :
-                        hp \in {<<<<"0.0.0.0">>, <<"8000">>>>, <<<<>>, <<>>>>}, es \in EpSeqs, j \in WsIdx} : ValidRest(k)}
+                        hp \in {<<<<"0.0.0.0">>, <<"8000">>>>, <<<<>>, <<>>>>}, es \in EpSeqs, j \in WsIdx} : ValidRest(k) /\ SlashOk(k)}
 MqBases    == {<<>>, <<"base_topic">>, <<"a", "/", "b">>}
 MqHeadOpts == {<<>>, <<V("qos", <<"1">>)>>, <<T("retain")>>, <<V("qos", <<"0">>), F("retain")>>}
 MqOpts     == {<<>>, <<V("qos", <<"0">>)>>, <<V("qos", <<"0">>), V("retain", <<"true">>)>>, <<T("retain")>>, <<F("retain")>>}
@@ -538,7 +542,7 @@ MqttCases  == {k \in {[c |-> "MQTTOut", h |-> Hd(hp[1], hp[2], ba, sl, os), item
                         hp \in HostPorts, ba \in MqBases, sl \in BOOLEAN, os \in MqHeadOpts,
                         ms \in {<<>>, <<MqFill[1]>>, <<MqFill[2], MqFill[1]>>}, j \in WsIdx}
                       \cup {[c |-> "MQTTOut", h |-> Hd(hp[1], hp[2], <<"base_topic">>, TRUE, <<>>), items |-> ms, w |-> j] :
-                        hp \in {<<<<"0.0.0.0">>, <<"8000">>>>, <<<<>>, <<>>>>}, ms \in MqSeqs, j \in WsIdx} : ValidMqtt(k)}
+                        hp \in {<<<<"0.0.0.0">>, <<"8000">>>>, <<<<>>, <<>>>>}, ms \in MqSeqs, j \in WsIdx} : ValidMqtt(k) /\ SlashOk(k)}
 ProtoCases == IF Mode # "proto" THEN {} ELSE WebvisCases \cup RestCases \cup MqttCases
 
 (* ---- the laws on the reference: every text form normalises to the structured form it is declared equivalent to ---- *)
@@ -552,8 +556,6 @@ ProtoEq(k) ==
                           /\ NormMqttB(k, w) = ExpectedMqtt(k)
                           /\ NormMqttC(k, w) = ExpectedMqtt(k)
 ProtoIdem(k) == k.c = "REST" => LET n == NormRest(k) IN NormRest(n) = n
-InvProtoEq   == Mode = "proto" => ProtoEq(kase)
-InvProtoIdem == Mode = "proto" => ProtoIdem(kase)
 ProtoVec(k) == LET w == WsSeq[k.w] IN
   [c |-> k.c, h |-> k.h, items |-> k.items, w |-> k.w,
    t |-> CASE k.c = "Webvis" -> Sp(w.edge) \o RenderHead("http://", k.h, w) \o Sp(w.edge)
@@ -585,9 +587,12 @@ InvRT_Topics    == Mode = "topics"  => RT_Topics(kase.x, kase.w)
 InvRT_Options   == Mode = "options" => RT_Options(kase.x, kase.w)
 InvRT_Entry     == Mode = "options" => RT_Entry(kase.x, kase.w)
 InvDefectExact  == Mode = "options" => (RT_OptionsD(kase.x, kase.w, AllDefects) <=> ~Deviates(kase.x, kase.w))
+InvCfgValid     == Mode = "config"  => \A i \in 1..Len(kase.i) : Valid(Pool(kase.c)[kase.i[i]])
 InvCfgEq        == Mode = "config"  => CfgEq(kase)
 InvCfgIdem      == Mode = "config"  => CfgIdem(kase)
 InvCfgInit      == Mode = "config"  => CfgInit(kase)
+InvProtoEq      == Mode = "proto"   => ProtoEq(kase)
+InvProtoIdem    == Mode = "proto"   => ProtoIdem(kase)
 
 ASSUME LawAmbiguousBang
 ASSUME LawAmbiguousAddr
